@@ -330,9 +330,7 @@ def main(argv=None):
 
     # Lean lemmas
     lean = []
-    for lf in cfg.get("lean", []):
-        if tier == "quick" and not cfg.get("lean_quick", True):
-            continue
+    for lf in cfg.get("lean", []) + (cfg.get("lean_thorough", []) if tier == "thorough" else []):
         import subprocess
         t1 = time.time()
         p = subprocess.run(["lean", os.path.join(HERE, "lean", lf)], capture_output=True, text=True, timeout=3000)
